@@ -443,6 +443,14 @@ func (g *GeneratorBase) Clean() error {
 		if file == genfile {
 			continue
 		}
+		isGen, err := g.isGeneratedFile(file)
+		if err != nil {
+			return err
+		}
+		if !isGen {
+			//never touch files this subcommand did not generate
+			continue
+		}
 		isAIO, err := isAllInOneFile(file)
 		if err != nil {
 			return err
@@ -455,6 +463,17 @@ func (g *GeneratorBase) Clean() error {
 		}
 	}
 	return nil
+}
+
+// isGeneratedFile reports whether file carries the header written by this subcommand
+func (g *GeneratorBase) isGeneratedFile(file string) (bool, error) {
+	line, err := firstLine(file)
+	if err != nil {
+		return false, err
+	}
+	pat := fmt.Sprintf("^// Code generated by \"%s %s .*DO NOT EDIT.", Shoot, regexp.QuoteMeta(g.subCmd))
+	reg := regexp.MustCompile(pat)
+	return reg.MatchString(line), nil
 }
 
 func isAllInOneFile(file string) (bool, error) {
